@@ -79,7 +79,7 @@ impl Exec for Reduce {
             unreachable!("Tried to do {iter} ${initial_value} {function}")
         };
         let mut result = initial_value;
-        while let Variable::Tuple(tuple) = iter.exec(interpreter)? {
+        while let Variable::Tuple(tuple) = iter.exec_with_args(&[])? {
             if tuple[0] == Variable::Bool(false) {
                 break;
             };
